@@ -48,6 +48,7 @@ def run(ctx):
     rf = prog.func(FA + "read_fasta")
     _group(ctx, gp)
     _read_fasta(ctx, rf)
+    entry_boundaries(ctx)
     _no_mutation_while_iterating(ctx, [gp, rf])
     from .c08 import _set_order
     reach = prog.reachable([rf.qual])
@@ -284,6 +285,59 @@ def _loop_conds(cfg, T, stmt):
                 tt, o = tt[2], not o
             out.append((tt, o))
     return out
+
+
+def entry_boundaries(ctx, rule="C16a-entry-boundaries"):
+    """A FASTA entry starts at a '>' in the first column and nowhere else:
+    the expression that cuts the joined file text into entries is evaluated
+    - the expression, with the text as a free variable; no repository code
+    runs - on small texts whose description lines contain ' >' and tab-'>'
+    (as legacy NCBI definition lines do).  The entries must be those that
+    begin at line starts."""
+    from ..chunks import Unknown as _U, ev as _ev
+    from ..tutil import map_term
+    prog = ctx.prog
+    f = prog.func(FA + "_parse_fasta_files")
+    T = Terms(DefUse(prog, f))
+    rets = T.returns()
+    ctx.require(len(rets) == 1, f"{f.qual}: expected one return")
+    rnode, rt = rets[0]
+    joins = [x for x in walk_term(rt) if isinstance(x, tuple) and x
+             and x[0] == "mcall" and x[2] == "join" and x[1][0] == "const"]
+    ctx.require(len(joins) >= 1, f"{f.qual}: the joined text of the files "
+                "is not found in what is returned")
+    J = joins[0]
+    TEXT = ("free", "<text>")
+    expr = map_term(rt, lambda x: TEXT if x == J else x)
+    texts = [
+        ">a first\nPEPTIDEK\nAAAR\n>b second\nCCCK\n",
+        ">gi|1| kinase A >gi|2| kinase\nPEPK\n>c\tx >y z\nDDDR\n",
+        ">only\nSEQK",
+        ">x\nAAA\n\n>y\nBBB\n",
+    ]
+    bad = []
+    try:
+        for text in texts:
+            def atoms(t, text=text):
+                if t == TEXT:
+                    return text
+                raise KeyError(t)
+            got = _ev(expr, atoms)
+            if not isinstance(got, (list, tuple)):
+                raise _U("the result is not a list of entries")
+            want = [e for e in text[1:].split("\n>")]
+            norm = lambda es: [e.strip() for e in es if e.strip()]  # noqa
+            if norm(got) != norm(want):
+                bad.append((text[:40], [e[:14] for e in norm(got)][:4]))
+    except (_U, KeyError) as e:
+        raise AnalysisError(f"{f.qual}: the entry split is outside the "
+                            f"evaluated fragment: {str(e)[:100]}")
+    ctx.check(not bad, rule, f,
+              "entries are cut at every '>' that starts a line, and only "
+              "there (4 texts evaluated)",
+              f"(text, entries found) = {bad[:2]}: a '>' inside a "
+              "description line starts a phantom entry and the real "
+              "protein loses its sequence", node=rnode)
 
 
 def _read_fasta(ctx, f):
